@@ -537,6 +537,73 @@ func (c *Ctx) rulesR7misc(only string) {
 			c.undecided("C13.shiftdisp: processQueue has no exit guarded by `disposing`")
 		}
 
+	case "C13q":
+		c.rule("C13.qrelease", "Machine.disposeLocked releases the waiters of queued check mutations (closeSafe of ACheck.CheckDone, which helpers.CantAdd / AskAdd block on without a timeout) by walking Machine.queue, and nothing resets Machine.queue before that walk: a queue emptied first leaves the walk nothing to release")
+		f := c.fnOpt(pm + ":Machine.disposeLocked")
+		fQ := c.field(pm, "Machine", "queue")
+		fCD := c.field(pm, "ACheck", "CheckDone")
+		if f == nil || fQ == nil || fCD == nil {
+			c.undecided("C13.qrelease: disposeLocked / Machine.queue / ACheck.CheckDone not found")
+			return
+		}
+		n := 0
+		for _, hf := range c.hostedFns(f) {
+			if hf.Parent() != nil {
+				continue // forked closures run later
+			}
+			for _, b := range hf.Blocks {
+				for _, ins := range b.Instrs {
+					call, ok := ins.(*ssa.Call)
+					if !ok || len(call.Call.Args) != 1 || loadOfField(call.Call.Args[0]) != fCD {
+						continue
+					}
+					n++
+					// the walk reads the queue ...
+					var qload ssa.Instruction
+					for _, b2 := range hf.Blocks {
+						for _, i2 := range b2.Instrs {
+							if u, ok := i2.(*ssa.UnOp); ok && loadOfField(u) == fQ && dominatesInstr(u, call) {
+								qload = u
+							}
+						}
+					}
+					if qload == nil {
+						c.fail("C13.qrelease", fmt.Sprintf("disposeLocked: CheckDone release#%d walks Machine.queue", n), call.Pos(), "the release of queued checks does not read Machine.queue")
+						continue
+					}
+					// ... and no reset of the queue comes first
+					bad := false
+					for _, g := range c.hostedFns(f) {
+						if g.Parent() != nil {
+							continue
+						}
+						for _, w := range writesOfFieldIn(g, fQ) {
+							if w.Kind != "assign" {
+								continue
+							}
+							at := w.Instr
+							if g != hf {
+								for _, st := range c.innerSites(hf, funcKey(g)) {
+									if st.Parent() == hf && dominatesInstr(st, qload) {
+										bad = true
+									}
+								}
+								continue
+							}
+							if dominatesInstr(at, qload) {
+								bad = true
+							}
+						}
+					}
+					c.check(!bad, "C13.qrelease", fmt.Sprintf("disposeLocked: CheckDone release#%d walks the queue before it is reset", n), call.Pos(),
+						"Machine.queue is overwritten before the walk that closes the queued checks' CheckDone: a CanAdd/CanRemove queued behind a running transition is never answered and helpers.CantAdd / AskAdd block forever")
+				}
+			}
+		}
+		if n < 1 {
+			c.undecided("C13.qrelease: disposeLocked does not close ACheck.CheckDone")
+		}
+
 	case "C15":
 		c.rule("C15.errkey", "Supervisor.ErrWorkerState records each worker error under a key that is fresh per occurrence (derived from utils.RandId): the kill threshold compares errs.ItemCount() with WorkerErrKill, so the number of items must be the number of errors. Keyed by the error text, a worker that keeps failing the same way stays at one item and is never killed")
 		f := c.fnOpt(pn + ":Supervisor.ErrWorkerState")
